@@ -225,6 +225,78 @@ def build() -> Check:
             if isinstance(n, ast.Attribute) and n.attr == cbf.name and not (isinstance(n.value, ast.Name) and n.value.id == "self" and fi.fq == cbf.fq):
                 starts.append(fi)
     ck.ob("R1.single-consumer-thread", c_cbf, len(starts) == 1, f"the consumer loop is started from {len(starts)} site(s): {[fn_construct(f) for f in starts]}")
+    # R4 what is compared with the size limit is the byte size of the whole update as it travels in the request: the measure must be the
+    # length of the JSON text of the update's complete wire dictionary (ASCII-only by json.dumps' default, or encoded), plus at most a
+    # non-negative constant. A cheaper estimate assembled from parts undercounts what JSON escaping adds to an embedded payload.
+    from sa.values import NONE, TypeRef
+    sc_ = prog.cls("state", "ExecutionState")
+    size_fns = [m for n_, m in sc_.methods.items() if "size" in n_ and any(isinstance(x, ast.Call) and ast.unparse(x.func).endswith("dumps") for x in ast.walk(m.node))]
+    cands = {m.name for m in size_fns}
+    # the function whose result is added to the running total in the collector
+    coll = sc_.methods.get("_collect_checkpoint_batch")
+    used = {c.func.attr for c in ast.walk(coll.node) if isinstance(c, ast.Call) and isinstance(c.func, ast.Attribute) and "size" in c.func.attr} if coll else set()
+    size_fn = next((sc_.methods[n_] for n_ in used if n_ in sc_.methods), None)
+    if size_fn is None:
+        raise AnalysisError("the size function used by _collect_checkpoint_batch was not found")
+    upd_cls = pm.update_cls
+    qop_cls = prog.cls("state", "QueuedOperation")
+
+    def h_wire(it, fn, sv, a, k, n):
+        return Sym(f"wire({sv.key()})", None, parts=("WIRE", sv))
+
+    def h_dumps(it, a, k, n):
+        ea = k.get("ensure_ascii")
+        return Sym(f"json({a[0].key() if a else '?'})", TypeRef(prim="str"), parts=("DUMPS", a[0] if a else NONE, ea.key() if ea is not None else None))
+
+    def h_enc(it, recv, a, k, n):
+        if isinstance(recv, Sym):
+            return Sym(f"{recv.key()}.encode()", TypeRef(prim="bytes"), parts=("ENCODE", recv))
+        return NotImplemented
+
+    def kw_sz(it, state):
+        q = Obj(qop_cls, label="qop")
+        q.fields.update(operation_update=Sym("update", TypeRef(classes=(upd_cls.fq,))), completion_event=NONE)
+        pname_ = [p_.arg for p_ in size_fn.node.args.args if p_.arg not in ("self", "cls")][0]
+        return {pname_: q}
+
+    trs = pm.run_function(size_fn, (lambda it, state: state) if size_fn.kind not in ("staticmethod", "classmethod") else None, kw_sz, cell=("size", ""),
+                          extra_hooks={upd_cls.methods["to_dict"].fq: h_wire}, ext_calls={"json.dumps": h_dumps}, ext_method_hooks={"encode": h_enc})
+
+    def exact(v):
+        """True if v is len(<json text of the whole wire dict>) in bytes (possibly + non-negative constants)"""
+        if isinstance(v, Sym) and v.parts and v.parts[0] == "BINOP" and v.parts[1] == "Add":
+            l_, r_ = v.parts[2], v.parts[3]
+            if isinstance(r_, Const) and isinstance(r_.value, (int, float)) and r_.value >= 0:
+                return exact(l_)
+            if isinstance(l_, Const) and isinstance(l_.value, (int, float)) and l_.value >= 0:
+                return exact(r_)
+            return False
+        if not (isinstance(v, Sym) and v.parts and v.parts[0] == "LEN"):
+            return False
+        x = v.parts[1]
+        encoded = False
+        if isinstance(x, Sym) and x.parts and x.parts[0] == "ENCODE":
+            x, encoded = x.parts[1], True
+        if not (isinstance(x, Sym) and x.parts and x.parts[0] == "DUMPS"):
+            return False
+        if not encoded and x.parts[2] not in (None, "True"):
+            return False  # characters, not bytes
+        w = x.parts[1]
+        return isinstance(w, Sym) and bool(w.parts) and w.parts[0] == "WIRE" and w.parts[1].key() == "update"
+
+    bad_sz = []
+    n_sz = 0
+    for t in trs:
+        if t.outcome != "return":
+            bad_sz.append(f"the size function raises {t.exc_class()}")
+            continue
+        if isinstance(t.value, Const) and t.value.value == 0 and any("operation_update" in k_ and v_ is True for k_, v_ in t.pc):
+            continue  # empty checkpoint
+        n_sz += 1
+        if not exact(t.value):
+            bad_sz.append(f"the size counted for an update is {t.value.key()[:160]}: not the byte length of the JSON text of its complete wire dictionary")
+    ck.floor("size_paths", n_sz, 1)
+    ck.ob("R4.size-is-serialized-wire-form", fn_construct(size_fn), not bad_sz, bad_sz[0] if bad_sz else f"{n_sz} path(s)")
     return ck
 
 
